@@ -460,7 +460,7 @@ def main():
                      "kind_free_text": "Coq 8.16 proofs over models regenerated/tied to /repo + Python correspondence and numpy sweeps"}],
         "checks": checks,
         "not_applicable": na,
-        "notes": "See DESIGN.md. Properties listed under not_applicable with the reason 'check not built yet' are in progress.",
+        "notes": "See DESIGN.md, section 9 'As built' (file map, theorems per check, triage of every alarm, seeded changes, trusted base). All 20 properties are claimed at the proof level and not_applicable is empty. Genuine defects: 26 were repaired in /repo (fix: commits, 'fixed:' lines of KNOWN_FINDINGS.txt); the 'finding:' lines of that file are printed as KNOWN-FINDING by the checks. 300 seeded changes with their demos are kept under seeded/.",
     }
     json.dump(man, open(os.path.join(HERE, "MANIFEST.json"), "w"), indent=1)
 
